@@ -654,6 +654,8 @@ class _Taint(object):
                     kind = 'attribute chosen at run time of an object without sensitive fields'
         elif isinstance(par, ast.Compare) and all(isinstance(o, (ast.Is, ast.IsNot)) for o in par.ops):
             kind = 'identity test'
+        elif isinstance(par, ast.Call) and par.func is n and ci is not None and self.repo.find_method(ci, '__call__') is not None:
+            kind = 'call of the object (the __call__ of its class is judged with the fields tagged)'
         if kind is None and is_aliased(mod, n):
             kind = 'local alias (judged where it is used)'
         if kind is None and self._transfer(fi, n, tag, pending):
